@@ -23,7 +23,9 @@ UNSUPPORTED = {s for s in ASSERT_SIGS if s.startswith(("assertEq(string[]", "ass
 
 def run(chk: Check, tier: str):
     rnd = random.Random(7477 * chk.seed + 13)
-    sigs = [s for s in ASSERT_SIGS if s not in UNSUPPORTED]
+    # (the bytes[] / string[] overloads are not implemented by halmos: it refuses them with NotImplementedError, which is
+    #  fine - but if it ever answers, the answer has to be the element-wise comparison of Cheats!ArgDynArr)
+    sigs = list(ASSERT_SIGS)
     progs = []
     reps = 1 if tier == "quick" else 6
     for s in sigs:
@@ -66,6 +68,9 @@ def run(chk: Check, tier: str):
             stop, cont = modes["stop"], modes["continue"]
             chk.count("evaluations")
             name = prog.name
+            if hr.exception and "NotImplementedError" in hr.exception and prog.meta.get("sig") in UNSUPPORTED:
+                chk.count("unsupported_overloads_refused")
+                continue
             if hr.exception:
                 chk.violation(f"{name}:exception", f"{name}: exception escaped SEVM.run: {hr.exception}", {"program": name, "code": {hex(a): c.hex() for a, c in prog.accounts.items()}})
                 continue
